@@ -47,7 +47,7 @@ Qed.
 (* ... and the decoder, given such a wrapper, decodes the value against the recovered type *)
 Theorem dynamic_unwrap norm j tj t : type_of_json norm tj = Ok t ->
   json_unmarshal norm (JObj [(s_value, j); (s_type, tj)]) TDyn =
-  match json_unmarshal_at norm (S (jv_size j + jv_size tj)) j t with Err _ => Err OtherError | r => r end.
+  match json_unmarshal_at norm (S (jv_size j + jv_size tj)) j (strip_opt t) with Err _ => Err OtherError | r => r end.
 Proof.
   intros T. unfold json_unmarshal. cbn [jv_size fst snd]. rewrite Nat.add_0_r.
   remember (S (jv_size j + jv_size tj)) as f eqn:Hf.
